@@ -575,6 +575,9 @@ class Spectrum(object):
             the psd on the fly, change the attribute :attr:`sides`.
 
         """
+        if self.__psd is None or self.modified is True:
+            # the stored PSD, and the sides it is stored in, are obsolete: update them before converting
+            _ = self.psd
         if sides == self.sides:
             #nothing to be done is sides = :attr:`sides
             return self.__psd
